@@ -14,14 +14,20 @@ func genKVHistoryCase(modes []int, segs []int64, minB, maxB int, reopenWeight in
 	return rapid.Custom(func(t *rapid.T) Case {
 		c := Case{Cfg: genConfig(modes, segs).Draw(t, "cfg")}
 		buckets := genBuckets(minB, maxB).Draw(t, "buckets")
-		keys := genKeys(keyAlphabet, 2, 7, 3).Draw(t, "keys")
-		n := rapid.IntRange(1, 40).Draw(t, "nsteps")
+		shape := genKeyShape(t, keyAlphabet, 2, 7, 3, 5, true)
+		keys := shape.Keys
+		maxSteps := 40
+		if shape.Kind == "bulk" {
+			maxSteps = 14
+			buckets = buckets[:1]
+		}
+		n := rapid.IntRange(1, maxSteps).Draw(t, "nsteps")
 		for i := 0; i < n; i++ {
 			if rapid.IntRange(0, 99).Draw(t, "isreopen") < reopenWeight {
 				c.Steps = append(c.Steps, Step{K: "reopen"})
 				continue
 			}
-			nops := rapid.IntRange(1, 5).Draw(t, "nops")
+			nops := rapid.IntRange(1, shape.MaxOps).Draw(t, "nops")
 			st := Step{K: "tx", Managed: rapid.Bool().Draw(t, "managed")}
 			for j := 0; j < nops; j++ {
 				st.Ops = append(st.Ops, genKVWrite(buckets, keys, true).Draw(t, "op"))
@@ -31,6 +37,9 @@ func genKVHistoryCase(modes []int, segs []int64, minB, maxB int, reopenWeight in
 		// drawn reads executed after every step, in addition to the systematic battery
 		bounds := boundsOf(keys)
 		nr := rapid.IntRange(2, 6).Draw(t, "nreads")
+		if shape.Kind != "small" {
+			nr += 8
+		}
 		var reads []Op
 		for i := 0; i < nr; i++ {
 			b := rapid.SampledFrom(buckets).Draw(t, "rb")
@@ -215,6 +224,18 @@ func runKVModelCase(c Case, st *Stats, withSearch bool) error {
 	}
 	if cl.fills > 0 {
 		classes = append(classes, "exact-fill")
+	}
+	maxKeys := 0
+	for _, mm := range m.KV {
+		if len(mm) > maxKeys {
+			maxKeys = len(mm)
+		}
+	}
+	if maxKeys > 7 {
+		classes = append(classes, "bucket-with-multi-leaf-tree")
+	}
+	if maxKeys > 40 {
+		classes = append(classes, "bucket-with-multi-level-tree")
 	}
 	classes = append(classes, fmt.Sprintf("mode%d-rw%d", c.Cfg.Mode, c.Cfg.RW))
 	st.Eval(c.JSON(), nontrivial, classes...)
